@@ -31,6 +31,15 @@ func runMemoTrace(root string, evs []memoEv) []memoEv {
 		panic(err)
 	}
 	defer os.RemoveAll(root)
+	// the hasher makes every path relative to its root and then uses it as is: like plz it must run IN the root
+	cwd, err := os.Getwd()
+	if err != nil {
+		panic(err)
+	}
+	if err := os.Chdir(root); err != nil {
+		panic(err)
+	}
+	defer os.Chdir(cwd)
 	h := fs.NewPathHasher(root, false, sha1.New, "sha1")
 	known := map[string]string{}
 	sum := func(v string) string { x := sha1.Sum([]byte(v)); return hex.EncodeToString(x[:]) }
